@@ -46,6 +46,7 @@ type fwVec struct {
 		Parse    string `json:"parse"`
 		Decision string `json:"decision"`
 		Outcome  string `json:"outcome"`
+		Outcome0 string `json:"outcome0"` // the same packet with no hops left
 	} `json:"expect"`
 }
 
@@ -262,19 +263,37 @@ func cmdFirewall(args []string) {
 		if v.Pkt.FromNode == self {
 			modes = append(modes, "origin")
 		}
+		// the same packet with no hops left (only where that can matter: the packet is for another node)
+		if v.Pkt.ToNode != self && v.Expect.Outcome0 != "" {
+			modes = append(modes, "peer-ttl0")
+			if v.Pkt.FromNode == self {
+				modes = append(modes, "origin-ttl0")
+			}
+		}
 		for _, mode := range modes {
+			expect, problem, ttl := v.Expect.Outcome, netceptor.ProblemRejected, byte(5)
+			if strings.HasSuffix(mode, "-ttl0") {
+				expect, ttl = v.Expect.Outcome0, 0
+				if expect == "expired" {
+					problem = netceptor.ProblemExpiredInTransit
+				}
+			}
+			noticeName := "notice"
+			if problem == netceptor.ProblemExpiredInTransit {
+				noticeName = "expired"
+			}
 			payload := []byte(fmt.Sprintf("v%d-%s", vi, mode))
 			ev0, f0, r0, n0 := col.Len(), p.Count(), nReads(), nNotes()
 			var sendErr error
-			if mode == "peer" {
-				_ = p.SendRaw(peer.EncodeData(5, v.Pkt.FromNode, v.Pkt.ToNode, v.Pkt.FromService, v.Pkt.ToService, payload))
+			if strings.HasPrefix(mode, "peer") {
+				_ = p.SendRaw(peer.EncodeData(ttl, v.Pkt.FromNode, v.Pkt.ToNode, v.Pkt.FromService, v.Pkt.ToService, payload))
 				if err := e1.Barrier(col, p, 10*time.Second); err != nil {
 					res.Inconclusive = append(res.Inconclusive, "barrier: "+err.Error())
 
 					return
 				}
 			} else {
-				sendErr = n.N.SendMessageWithHopsToLive(v.Pkt.FromService, v.Pkt.ToNode, v.Pkt.ToService, payload, 5)
+				sendErr = n.N.SendMessageWithHopsToLive(v.Pkt.FromService, v.Pkt.ToNode, v.Pkt.ToService, payload, ttl)
 			}
 			evs := col.Since(ev0)
 			nf, nd, nu := 0, 0, 0
@@ -306,7 +325,7 @@ func cmdFirewall(args []string) {
 			mu.Unlock()
 			obs := "silent"
 			detail := ""
-			ttlIn := byte(5)
+			ttlIn := ttl
 			switch {
 			case len(dataFrames) == 0 && len(newReads) == 0 && nu == 0:
 				obs = "silent"
@@ -315,14 +334,14 @@ func cmdFirewall(args []string) {
 				if d.FromService == "unreach" && d.ToService == "unreach" {
 					var um netceptor.UnreachableMessage
 					_ = json.Unmarshal(d.Payload, &um)
-					if d.FromHash == peer.Hash(self) && d.ToHash == peer.Hash(v.Pkt.FromNode) && um.Problem == netceptor.ProblemRejected &&
+					if d.FromHash == peer.Hash(self) && d.ToHash == peer.Hash(v.Pkt.FromNode) && um.Problem == problem &&
 						um.FromNode == v.Pkt.FromNode && um.ToNode == v.Pkt.ToNode && um.FromService == v.Pkt.FromService && um.ToService == v.Pkt.ToService {
-						obs = "notice"
+						obs = noticeName
 					} else {
 						obs, detail = "bad-notice", fmt.Sprintf("%+v %+v", d, um)
 					}
 				} else if d.FromHash == peer.Hash(v.Pkt.FromNode) && d.ToHash == peer.Hash(v.Pkt.ToNode) && d.FromService == v.Pkt.FromService &&
-					d.ToService == v.Pkt.ToService && string(d.Payload) == string(payload) && d.TTL == ttlIn-1 && v.Pkt.ToNode != self {
+					d.ToService == v.Pkt.ToService && string(d.Payload) == string(payload) && ttlIn > 0 && d.TTL == ttlIn-1 && v.Pkt.ToNode != self {
 					obs = "pass"
 				} else {
 					obs, detail = "bad-forward", fmt.Sprintf("%+v", d)
@@ -345,35 +364,38 @@ func cmdFirewall(args []string) {
 				nt := notes[n0]
 				extraNotes := len(notes) - n0
 				mu.Unlock()
-				if extraNotes == 1 && nt.svc == v.Pkt.FromService && v.Pkt.FromNode == self && nt.n.Problem == netceptor.ProblemRejected &&
+				if extraNotes == 1 && nt.svc == v.Pkt.FromService && v.Pkt.FromNode == self && nt.n.Problem == problem &&
 					nt.n.ToNode == v.Pkt.ToNode && nt.n.ToService == v.Pkt.ToService && nt.n.FromService == v.Pkt.FromService {
-					obs = "notice"
+					obs = noticeName
 				} else {
 					obs, detail = "bad-notice", fmt.Sprintf("%+v (%d notifications)", nt, extraNotes)
 				}
 			default:
 				obs, detail = "multiple", fmt.Sprintf("frames=%d reads=%d publishes=%d", len(dataFrames), len(newReads), nu)
 			}
-			if mode == "origin" && sendErr != nil {
+			if strings.HasPrefix(mode, "origin") && sendErr != nil {
 				obs, detail = "send-error", sendErr.Error()
 			}
-			key := fmt.Sprintf("%s|%s|%+v|%s", mode, rulesJSON, v.Pkt, v.Expect.Outcome)
+			key := fmt.Sprintf("%s|%s|%+v|%s", mode, rulesJSON, v.Pkt, expect)
 			distinct[key] = true
-			res.count("outcome_" + v.Expect.Outcome)
+			res.count("outcome_" + expect)
 			res.count("mode_" + mode)
-			if obs != v.Expect.Outcome {
+			if obs != expect {
 				pos := "transit"
 				if v.Pkt.ToNode == self {
 					pos = "destination"
 				}
-				if mode == "origin" {
+				if strings.HasPrefix(mode, "origin") {
 					pos = "origin"
 				}
-				res.violate(fmt.Sprintf("C12:%s-instead-of-%s", obs, v.Expect.Outcome),
-					fmt.Sprintf("rules %s packet %+v at %s: spec says %s (decision %s), node did %s %s", rulesJSON, v.Pkt, pos, v.Expect.Outcome, v.Expect.Decision, obs, detail),
+				if ttl == 0 {
+					pos += ", no hops left"
+				}
+				res.violate(fmt.Sprintf("C12:%s-instead-of-%s", obs, expect),
+					fmt.Sprintf("rules %s packet %+v at %s: spec says %s (decision %s), node did %s %s", rulesJSON, v.Pkt, pos, expect, v.Expect.Decision, obs, detail),
 					map[string]any{"vector": v, "mode": mode})
 			}
-			if len(res.Samples) < 6 && (vi%97 == 0 || obs != v.Expect.Outcome) {
+			if len(res.Samples) < 6 && (vi%97 == 0 || obs != expect) {
 				res.Samples = append(res.Samples, map[string]any{"vector": v, "mode": mode, "observed": obs})
 			}
 		}
